@@ -11,6 +11,7 @@ CONSTANTS
   OMSEQ <- NoSeq
   VSHIFT <- Neg2
   MAXFIX = TRUE
+  NANV <- Neg1
   EMITSTEPS = TRUE
 INVARIANT NoBad
 INVARIANT ShapeOK
